@@ -97,6 +97,12 @@ def run(ck):
                     ck.violation("C08: a lookup of an entry every process can see failed", desc)
                 if cls == "maybe-masked" and "err" in r and r["err"]["errno"] not in (1, 2, 13, 20):
                     ck.violation("C08: a lookup of a possibly masked entry failed with an unrelated error", desc)
+                # true errors: a caller who can make a private procfs instance (root, fsopen available) gets an unmasked handle for
+                # the retry, so an entry that exists is found whatever the host mount masks -- ENOENT there is a false answer
+                if (cls == "maybe-masked" and job["op"]["k"] == "proc_open" and conf.get("uid") is None and "fsopen" not in deny
+                        and "err" in r):
+                    ck.violation("C08: an existing procfs entry, masked only on the host mount, was reported missing to a caller "
+                                 "who can create a private procfs instance", desc)
                 if len(newh) > 1 or len(ctor) > 3:
                     ck.violation("C08: a single lookup created more than one extra procfs handle / tried the constructors more than once", desc)
                 if len(tr) > 1500 or r_.get("wall_ms", 0) > 5000:
